@@ -581,10 +581,18 @@ class Evaluator:
                 return ChainNode(base.children[idx]) if isinstance(idx, slice) else base.children[idx]
             if isinstance(base, collections.deque) and isinstance(idx, slice):
                 raise Unsupported("slice of a deque")
+            if isinstance(base, range):
+                try:
+                    r_ = base[idx]
+                except IndexError:
+                    raise Raised("IndexError")
+                return list(r_) if isinstance(r_, range) else r_
             if isinstance(base, (list, tuple, collections.deque)):
                 try:
                     return base[idx]
                 except IndexError:
+                    if getattr(self, "index_errors_raise", False):
+                        raise Raised("IndexError")
                     raise Unsupported("index out of range on a grid shape")
             raise Unsupported("subscript")
         if isinstance(e, ast.Call):
